@@ -61,6 +61,9 @@ CHECKS["C20"] = dict(category="exploration", technique="tool runs recorded as tr
 CHECKS["C19"] = dict(category="model_checking", technique="TLA+ acceptance relation (E57Spec.ProtoVerdict) decides which copies must succeed; TLC trace validation of copy / copy-of-copy / double-write executions",
    text="Bundled test data, writer files over the C01/C04/C06 generators (incl. full 64-bit range, min = max, extension records) and files of the independent encoder are copied through the public API, the copy is copied again and written twice. TLC requires: the copy succeeds whenever every reported prototype obeys the documented rules (reader output is a subset of writer input), masked reports, points and image data of the copy equal the source's, the second copy equals the first in full, two writes are byte-identical.",
    note="Section/blob offsets, the library version string and the writer-derived bounds are masked in the source-vs-copy comparison (the API cannot set them). Trusts TLC, the acceptance relation, harness equality flags for bulk data.", ref="6 C19")
+CHECKS["C03"] = dict(category="model_checking", technique="independent TLA+ encoder (E57Encode) with explicit layout choices, model-level round trip against the TLA+ decoder, every case materialised and read by the real reader, TLC trace validation against the scene",
+   text="TLC enumerates scenes x layouts (every cut position of short streams, skewed/unequal cuts per record, three and four packets incl. packets that complete no point, index and ignored packets between data packets, section start swept across the page boundary, every integer width at all bit phases) and proves decode(encode(case)) = case on the model; each case becomes a real file (XML lexical variants: attribute order and quotes, comments, prefixed E57 namespace, number forms, omitted optional attributes, self-closing, no declaration); the real reader must open it, report the encoded prototype/count/guids, return exactly the encoded values from the raw iterator and the same count from the simple iterator.",
+   note="Legality of layouts is the standard as transcribed in E57Encode/E57Format (each guards the other through the model-level round trip). XML text comes from the materialiser, section bytes from the TLA+ encoder. 1024-byte pages, no string-typed records.", ref="6 C03")
 NOT_APPLICABLE = {}
 
 def main():
